@@ -75,11 +75,15 @@ ExpandStrings(h) ==
                                           p \in {SL(<<97>>), SL(<<37>>), SL(<<95>>), SL(<<Q>>), SL(<<92>>), SL(<<>>), SL(<<97, 37>>), SL(<<92, 37>>), SL(<<97, 92, 95>>)} }
                   \cup { <<0, C2(f, HS, uC)>> : f \in {"contains", "startswith", "endswith"} }
                   \cup { <<0, Cmp(o, HS, p)>> : o \in {"eq", "lt", "ge"}, p \in {SL(<<97, 98>>), SL(<<65, 66>>), SL(<<97, 37, 98>>), SL(<<97, 32, 98>>), SL(<<97, 32, 32, 98>>), uC,
-                                                                                SL(<<97, 37, 50, 48, 98>>), SL(<<37, 54, 49>>)} }     \* 'a%20b' and '%61': not URL-encoded text
+                                                                                SL(<<97, 37, 50, 48, 98>>), SL(<<37, 54, 49>>),
+                                                                                SL(<<92>>), SL(<<97, 92, 98>>)} }     \* 'a%20b' and '%61': not URL-encoded text
                   \cup { <<0, Cmp(o, C1("length", HS), IntL(k))>> : o \in {"eq", "gt"}, k \in {0, 2} }
                   \* an integer-valued function against a decimal literal (no truncation of the literal)
                   \cup { <<0, Cmp(o, C1("length", HS), FL("1.5"))>> : o \in {"lt", "ge", "eq"} }
                   \cup { <<0, Cmp("ge", C2("indexof", HS, SL(<<98>>)), FL("0.5"))>> }
+                  \* arithmetic between two integer-valued string functions
+                  \cup { <<0, Cmp("eq", Bin("add", C2("indexof", sC, SL(<<98>>)), C2("indexof", sC, SL(<<97>>))), IntL(1))>>,
+                         <<0, Cmp("gt", Bin("add", C1("length", sC), C1("length", uC)), IntL(3))>> }
                   \cup { <<0, Cmp(o, C2("indexof", HS, p), IntL(k))>> : o \in {"eq", "lt"}, k \in {0, 1}, p \in {SL(<<98>>), SL(<<37>>), uC} }
                   \cup { <<0, Cmp("in", HS, Lst(<<SL(<<97>>), SL(<<111, Q, 114>>), SL(<<37>>)>>))>> }
                   \cup { <<0, Cmp(o, C1("toupper", HS), SL(<<65, 66>>))>> : o \in {"eq", "ne", "lt"} }
@@ -91,7 +95,10 @@ ExpandStrings(h) ==
                   \cup { <<1, Call(Id0("substring"), <<HS, IntL(k), IntL(j)>>)>> : k \in {0, 1}, j \in {0, 1, 2} }
 ExpandMisc(h) ==
   CASE h = "B" -> { <<0, x>> : x \in (IF Backend = "django" THEN {} ELSE {bC}) \cup { Cmp("eq", bC, BoolL("false")), Cmp("ne", bC, BoolL("true")), Cmp("eq", bC, NullL),
-                                       Cmp("eq", NullL, nC), Cmp("ne", NullL, sC), Cmp("ne", dC, NullL), Cmp("eq", nC, mC), Cmp("ne", sC, uC),
+                                       Cmp("eq", NullL, nC), Cmp("ne", NullL, sC),
+                                       \* null on the LEFT of a compound operand
+                                       Cmp("eq", NullL, Cmp("eq", nC, mC)), Cmp("ne", NullL, C2("contains", sC, SL(<<97>>))),
+                                       Cmp("eq", NullL, Un("not", Cmp("gt", nC, IntL(0)))), Cmp("ne", NullL, Bool("or", Cmp("eq", nC, IntL(1)), Cmp("eq", mC, IntL(1)))), Cmp("ne", dC, NullL), Cmp("eq", nC, mC), Cmp("ne", sC, uC),
                                        Cmp("lt", dC, T1), Cmp("ge", dC, T1), Cmp("eq", dC, T2), Cmp("gt", T1, dC), Cmp("le", IntL(1), nC),
                                        Cmp("in", nC, Lst(<<IntL(0)>>)), Cmp("in", sC, Lst(<<SL(<<>>), SL(<<97, 95, 98>>)>>)),
                                        Cmp("eq", C2("contains", sC, SL(<<97>>)), BoolL("true")),
@@ -139,6 +146,8 @@ ExpandFns(h) ==
 \* date-times (offset-bearing literals lose their offset in the driver) and CASTs to DATE/TIME numerically.
 eC == Id0("e")  ddC == Id0("dd")  ttC == Id0("tt")  duC == Id0("du")
 DL(x) == Lit("Date", x)  TL(x) == Lit("Time", x)  UL(x) == Lit("Duration", x)  XL(x) == Lit("DateTime", x)
+\* UTC designator and date/time separator in either letter case
+ZLits == { XL("2019-12-31T23:59:59z"), XL("2020-02-29t00:00:00Z") }
 OffsetLits == { XL("2020-02-29T01:00:00+01:00"), XL("2020-02-28T23:00:00-01:00"), XL("2019-12-31T23:59:59Z"), XL("2021-01-01T15:35:00+05:30") }
 DurLits == { UL("PT1H"), UL("P1D"), UL("PT0S"), UL("-PT1M"), UL("PT1S"), UL("P1DT1H") }
 ExpandTemporal(h) ==
@@ -149,7 +158,7 @@ ExpandTemporal(h) ==
                   \cup { <<0, Cmp("eq", ddC, NullL)>>, <<0, Cmp("ne", ttC, NullL)>>, <<0, Cmp("in", ddC, Lst(<<DL("2019-12-31"), DL("2021-01-01")>>))>> }
                   \cup { <<0, Cmp("eq", C1(f, ddC), IntL(k))>> : <<f, k>> \in {<<"year", 2020>>, <<"month", 12>>, <<"day", 29>>} }
                   \cup { <<0, Cmp("eq", C1(f, ttC), IntL(k))>> : <<f, k>> \in {<<"hour", 10>>, <<"minute", 59>>} }
-                  \cup { <<0, Cmp(o, HT, x)>> : o \in {"eq", "lt", "ge"}, x \in {T1, eC} }
+                  \cup { <<0, Cmp(o, HT, x)>> : o \in {"eq", "lt", "ge"}, x \in {T1, eC} \cup ZLits }
                   \cup (IF Backend = "sqlalchemy" THEN {} ELSE { <<0, Cmp(o, HT, x)>> : o \in {"eq", "gt"}, x \in OffsetLits })
                   \cup (IF Backend = "sqlite" THEN {}
                         ELSE { <<0, Cmp(o, duC, x)>> : o \in {"eq", "lt", "ge"}, x \in {UL("PT1H"), UL("PT0S"), UL("P1D")} }
